@@ -44,6 +44,7 @@ type Spec struct {
 	RefFile        string   // with Ref: the definition lives in this other file (a cross-file reference "<file>#/$defs/<name>")
 	built          *builder
 	refStr         *absint.Str
+	IntBounds      bool   // the numeric bounds are integers (fact on their atoms)
 	DefSameAs      string // with Ref: the definition has the same NAME as the (earlier built) definition with this label (possibly in another file)
 	DefLabel       string // label under which this definition's name can be reused
 	RefRootOf      string // a reference to the root of another file: {"$ref": "<file>"}
@@ -314,11 +315,25 @@ func (b *builder) build(s *Spec, label string) gen.V {
 		}
 		return nil
 	}
+	if s.IntBounds {
+		for _, k := range []string{"minimum", "maximum"} {
+			if a := s.Atoms[k]; a != nil {
+				a.Facts["integral"] = "yes"
+			}
+		}
+	}
 	if v := ex(s.EMin, "exclusiveMinimum"); v != nil {
 		f["ExclusiveMinimum"] = v
 	}
 	if v := ex(s.EMax, "exclusiveMaximum"); v != nil {
 		f["ExclusiveMaximum"] = v
+	}
+	if s.IntBounds {
+		for _, k := range []string{"exclusiveMinimum", "exclusiveMaximum"} {
+			if a := s.Atoms[k]; a != nil {
+				a.Facts["integral"] = "yes"
+			}
+		}
 	}
 	if s.Items != nil {
 		f["Items"] = b.build(s.Items, label+"Elem")
